@@ -40,7 +40,9 @@ def gen():
     t = F.strip_comments(F.src(MLIST))
     b = F.fn_body(t, "lookup", MLIST)
     # --- the loop head: for ENTRY in LEX.lookup(query.as_bytes(), OFFSET)
-    heads = list(re.finditer(r"\bfor\s+(%s)\s+in\s+(%s)\s*\.\s*lookup\(\s*query\.as_bytes\(\)\s*,\s*(\d+)\s*\)\s*\{" % (ID, ID), b))
+    # (the skip test may sit on the iterator: `lex.lookup(..).filter(|e| e.end == query.len())` keeps what `continue` does not skip)
+    filt = r"(?:\s*\.\s*filter\(\s*\|\s*&?(?P<fv>%s)\s*\|\s*(?:(?P=fv)\.end\s*(?P<fop>==|!=|<=|>=|<|>)\s*query\.len\(\)|query\.len\(\)\s*(?P<fop_r>==|!=|<=|>=|<|>)\s*(?P=fv)\.end)\s*\))?" % ID
+    heads = list(re.finditer(r"\bfor\s+(%s)\s+in\s+(%s)\s*\.\s*lookup\(\s*query\.as_bytes\(\)\s*,\s*(\d+)\s*\)%s\s*\{" % (ID, ID, filt), b))
     if len(heads) != 1 or len(re.findall(r"\b(?:for|while|loop)\b", b)) != 1:
         raise F.FactError("MorphemeList::lookup: expected exactly one loop, `for entry in lex.lookup(query.as_bytes(), K)`")
     h = heads[0]
@@ -57,20 +59,33 @@ def gen():
     guard = re.match(r"\s*if\s+%s\.end\s*(==|!=|<=|>=|<|>)\s*query\.len\(\)\s*\{" % re.escape(ent), loop)
     guard_r = re.match(r"\s*if\s+query\.len\(\)\s*(==|!=|<=|>=|<|>)\s*%s\.end\s*\{" % re.escape(ent), loop)
     g = guard or guard_r
-    if not g:
-        raise F.FactError("MorphemeList::lookup: the loop no longer starts with `if entry.end <cmp> query.len() { .. }`")
-    cmp_ = g.group(1) if guard else flip[g.group(1)]
-    gend = _block(loop, g.end() - 1)
-    skip_block = re.sub(r"\s+", "", loop[g.end():gend - 1])
-    rest = loop[gend:]
-    if re.match(r"\s*else\b", rest):
-        raise F.FactError("MorphemeList::lookup: the skip test has an else branch")
+    neg = {"==": "!=", "!=": "==", "<": ">=", ">=": "<", ">": "<=", "<=": ">"}
+    implicit = 0
+    if h.group("fop") or h.group("fop_r"):
+        # filter(keep): the entries with `not keep` are skipped before the body runs -- one implicit `continue`
+        if g:
+            raise F.FactError("MorphemeList::lookup: a filter on the iterator AND a test of entry.end in the body")
+        cmp_ = neg[h.group("fop") or flip[h.group("fop_r")]]
+        skip_block, rest, implicit = "continue;", loop, 1
+    else:
+        if not g:
+            raise F.FactError("MorphemeList::lookup: the loop no longer starts with `if entry.end <cmp> query.len() { .. }`")
+        cmp_ = g.group(1) if guard else flip[g.group(1)]
+        gend = _block(loop, g.end() - 1)
+        skip_block = re.sub(r"\s+", "", loop[g.end():gend - 1])
+        rest = loop[gend:]
+        if re.match(r"\s*else\b", rest):
+            raise F.FactError("MorphemeList::lookup: the skip test has an else branch")
+        if not rest.strip() and "continue" not in skip_block:
+            # the guard the other way round: `if e.end == len { <everything> }` and nothing behind it -- the entries with
+            # the negated test fall through to the next iteration: one implicit `continue`
+            cmp_, rest, skip_block, implicit = neg[cmp_], loop[g.end():gend - 1], "continue;", 1
     out.append("(* %s MorphemeList::lookup: `for e in lex.lookup(query.as_bytes(), offset)`; `if e.end <skip_cmp> query.len() { continue; }` *)\n" % MLIST)
     out.append("Definition lookup_offset : N := %s.\nDefinition skip_cmp : string := %s.\n" % (F.coq_int(off), q(cmp_)))
     out.append("(* the block of that test, white space removed *)\nDefinition skip_block : string := %s.\n" % q(skip_block))
     out.append("(* ways out of the loop body, counted over the whole body: continue / break / return *)\n")
     out.append("Definition loop_continues : N := %s.\nDefinition loop_breaks : N := %s.\nDefinition loop_returns : N := %s.\n" %
-               (F.coq_int(len(conts)), F.coq_int(len(breaks)), F.coq_int(len(rets))))
+               (F.coq_int(len(conts) + implicit), F.coq_int(len(breaks)), F.coq_int(len(rets))))
     # --- what happens to an entry that is kept: no further condition, one push of a node carrying the entry's word id
     conds = re.findall(r"\b(?:if|match|while)\b", rest)
     pushes = re.findall(r"\.push\(", rest)
@@ -93,6 +108,11 @@ def gen():
     if not call:
         raise F.FactError("Dictionary.lookup: call of MorphemeList::lookup not recognised")
     lst, arg, sub = call.group(1), call.group(2), re.sub(r"\s+", "", call.group(3))
+    if re.fullmatch(ID, sub):
+        # a name given to the fields: `let all = InfoSubset::all();` (bound once, not mut)
+        bound = re.findall(r"\blet\s+%s\s*(?::[^=;]+)?=\s*([^;]+);" % re.escape(sub), pb[:call.start()])
+        if len(bound) == 1 and not re.search(r"\blet\s+mut\s+%s\b" % re.escape(sub), pb):
+            sub = re.sub(r"\s+", "", bound[0])
     cleared = re.search(r"\b%s\.clear\(\)\s*;" % re.escape(lst), pb[:call.start()]) is not None
     sig = re.search(r"fn\s+lookup\s*(?:<[^>]*>)?\s*\(([^)]*)\)", p)
     is_param = sig is not None and re.search(r"\b%s\s*:\s*&(?:'\w+\s+)?str\b" % re.escape(arg), sig.group(1)) is not None
